@@ -29,6 +29,29 @@ def package_lints(ctx):
             if isinstance(d, (ast.List, ast.Dict, ast.Set)):
                 n["mutable-default"] += 1
                 ctx.xref("lint:mutable-default", loc(f, d), "%s has a mutable default argument `%s`" % (f.short, norm(d)[:30]))
+    # the loop lints that are armed only for named function sets in the quick tier, here over the whole package
+    from .stale import last_only_vars, silent_breaks, stale_loop_vars
+    from .memo import memo_sites, missing_key_params
+    n.update({"loop-carried-state": 0, "last-iteration-only": 0, "silent-break": 0, "memo-key": 0})
+    for f in prog.functions.values():
+        try:
+            for lp, name, use, d in stale_loop_vars(f):
+                n["loop-carried-state"] += 1
+                ctx.xref("lint:loop-carried-state", loc(f, use), "`%s` may carry a previous iteration's value (%s)" % (name, f.short))
+            for lp, name, use, d in last_only_vars(f):
+                n["last-iteration-only"] += 1
+                ctx.xref("lint:last-iteration-only", loc(f, use), "`%s` keeps only the last iteration's value (%s)" % (name, f.short))
+            for lp, b in silent_breaks(f)[1]:
+                n["silent-break"] += 1
+                ctx.xref("lint:silent-break", loc(f, b), "reporting loop left without a report (%s)" % f.short)
+            for site in memo_sites(f):
+                if "cache" in site[1].lower():
+                    miss = missing_key_params(f, site)
+                    if miss:
+                        n["memo-key"] += 1
+                        ctx.xref("lint:memo-key", loc(f, site[0]), "cached value depends on %s, key does not (%s)" % (miss, f.short))
+        except Exception:      # a lint must never break a check
+            continue
     ctx.notes.append("thorough: package-wide lints (cross-references only): %s" % n)
 
 
